@@ -51,6 +51,8 @@ def formulas(tier):
     out += ["y ~ f/g", "y ~ f/x", "y ~ g/f/x", "y ~ f:(g + x)", "y ~ (f + g)**2", "y ~ 0 + (f + g)**2", "y ~ f*g*x", "y ~ (f + g):x", "y ~ x/f"]
     # categorical / subset responses
     out += ["f ~ x", "g ~ x + f", "g[t] ~ x", "f['a'] ~ g"]
+    # numeric ids with many digits (ints and floats) as levels and as groups
+    out += ["y ~ C(kb)", "y ~ 0 + x:C(kb)", "y ~ (1|kb)", "y ~ C(kf)", "y ~ (x|kf)", "y ~ f:C(kf)"]
     return out
 
 
@@ -75,6 +77,10 @@ def cases(tier):
                 if (tier == "quick" or i >= len(formulas(tier))) and (i + flav.index(fv) + orders.index(o)) % 3 != 0:
                     continue  # quick (and the large family of the thorough tier): each formula with 3 of the 9 (flavour, order) combinations
                 out.append((f, fv, o))
+    # frames with several thousand rows (block-wise implementations): just over a power of two
+    for n in ([4100] if tier == "quick" else [4100, 8200, 16390]):
+        out.append(("y ~ x:f + g", "str", f"sorted@{n}"))
+        out.append(("y ~ x + (x|g)", "str", f"scramble@{n}"))
     return out
 
 
@@ -121,7 +127,14 @@ def harness(env, case):
     formula, flavour, order = case
     vars_ = gen.used_vars(formula)
     # a numeric response named y unless the formula has another response
-    df, rows = gen.build_frame(env, vars_, flavour, order)
+    reps = 1
+    if "@" in order:
+        order, nrows = order.split("@")
+        cells = 1
+        for v in vars_:
+            cells *= len(gen.LEVELS.get(v, [0]))
+        reps = -(-int(nrows) // cells)
+    df, rows = gen.build_frame(env, vars_, flavour, order, reps=reps)
     try:
         with env.running():
             dm = design_matrices(formula, df, extra_namespace={"lv": list(LV)})
